@@ -7,4 +7,6 @@ export VERIF_DIR="$(pwd)"
 mkdir -p work evidence replays
 ./sync_nostd.sh
 ( cd harness && cargo build --release --offline )
+( cd harness_iso/std && cargo build --release --offline )
+( cd harness_iso/nostd && cargo build --release --offline )
 harness/target/release/tfcheck selftest
